@@ -66,6 +66,23 @@ func (e *Env) key(name string) string {
 	return cmdKey(i)
 }
 
+// known keeps the names that are registered commands of the tree under test.
+func (e *Env) known(names []string) []string {
+	out := []string{}
+
+	for _, n := range names {
+		if _, ok := e.CmdIndex[n]; ok {
+			out = append(out, n)
+		}
+	}
+
+	if len(out) == 0 {
+		out = append(out, "forward-char")
+	}
+
+	return out
+}
+
 // privateBinds binds every command by name on its private sequence in the
 // given keymaps (the way an application or inputrc would: Config.Bind).
 func (e *Env) privateBinds(keymaps ...string) []proto.BindSpec {
@@ -193,7 +210,33 @@ func genPhrase(t *rapid.T, e *Env) []Step {
 		return k(rapid.SampledFrom([]string{"w", "b", "e", "W", "B", "E", "0", "$", "^", "h", "l", "fa", "Fo", "t ", "T ", "%", "ge", "gE", "iw", "aw", "iW", "aW", "i\"", "a\"", "i(", "a(", "i'", "ia", "aa", "j", "k", "3w", "2b", "s\""}).Draw(t, "motion"), "motion")
 	}
 
-	switch rapid.IntRange(0, 8).Draw(t, "phrase") {
+	switch rapid.IntRange(0, 9).Draw(t, "phrase") {
+	case 9: // a numeric argument (negative, zero, large) and then a command that uses one
+		arg := rapid.SampledFrom([]string{"-", "-", "-1", "-2", "-3", "-4", "0", "1", "2", "3", "4", "10", "100"}).Draw(t, "argval")
+		name := ""
+
+		switch rapid.IntRange(0, 3).Draw(t, "argcmdkind") {
+		case 0: // words of history entries
+			name = rapid.SampledFrom(e.known([]string{"yank-last-arg", "yank-nth-arg", "insert-last-argument", "yank-last-arg"})).Draw(t, "histarg")
+		case 1, 2:
+			name = rapid.SampledFrom(e.known(argCommands)).Draw(t, "argcommand")
+		default:
+			name = rapid.SampledFrom(e.Commands).Draw(t, "anycommand")
+		}
+
+		var sb strings.Builder
+		for _, ch := range arg {
+			sb.WriteString("\x1b" + string(ch))
+		}
+
+		out := []Step{k(sb.String(), "numeric-argument"), {Keys: encs(e.key(name)), Note: name}}
+
+		// yank-last-arg repeated walks back through the history
+		for i := rapid.IntRange(0, 2).Draw(t, "argrepeat"); i > 0; i-- {
+			out = append(out, Step{Keys: encs(e.key(name)), Note: name})
+		}
+
+		return out
 	case 0: // incremental search
 		out := []Step{k(rapid.SampledFrom([]string{"\x12", "\x13"}).Draw(t, "isdir"), "isearch")}
 		for i := rapid.IntRange(0, 4).Draw(t, "isn"); i > 0; i-- {
@@ -261,6 +304,15 @@ func genPhrase(t *rapid.T, e *Env) []Step {
 		return out
 	}
 }
+
+// argCommands: commands documented to use a numeric argument.
+var argCommands = []string{"forward-char", "backward-char", "forward-word", "backward-word", "previous-history", "next-history", "delete-char", "backward-delete-char",
+	"kill-word", "backward-kill-word", "kill-line", "backward-kill-line", "unix-word-rubout", "transpose-chars", "transpose-words", "upcase-word", "downcase-word",
+	"capitalize-word", "yank", "yank-pop", "self-insert", "insert-comment", "quoted-insert", "tab-insert", "history-search-backward", "history-search-forward",
+	"beginning-of-history", "end-of-history", "fetch-history", "shell-forward-word", "shell-backward-word", "shell-kill-word", "shell-transpose-words",
+	"character-search", "character-search-backward", "copy-forward-word", "copy-backward-word", "overwrite-mode", "undo", "menu-complete", "menu-complete-backward",
+	"dump-functions", "dump-variables", "dump-macros", "vi-arg-digit", "digit-argument", "universal-argument", "up-line-or-history", "down-line-or-history",
+	"vi-goto-column", "vi-column", "keyword-increase", "keyword-decrease"}
 
 // genScript draws a script: tokens and phrases.
 func genScript(t *rapid.T, e *Env, min, max int) []Step {
